@@ -191,7 +191,11 @@ class PASHARungSystem(PromotionRungSystem):
         )
         for epoch in range(top_epoch, bottom_epoch, -1):
             if len(self.epoch_to_trials[epoch]) > 1:
-                for pair in itertools.combinations(self.epoch_to_trials[epoch], 2):
+                # Note: Sorted, so that the result does not depend on the iteration
+                # order of the set (hash randomization of ``str``)
+                for pair in itertools.combinations(
+                    sorted(self.epoch_to_trials[epoch]), 2
+                ):
                     c1, c2 = pair[0], pair[1]
                     if (c1, c2) not in seen_pairs:
                         seen_pairs.add((c1, c2))
